@@ -130,7 +130,12 @@ Software documentation and support at http://snmplabs.com/pysmi
         verboseFlag = False
 
     if opt[0] == '--debug':
-        debug.setLogger(debug.Debug(*opt[1].split(',')))
+        try:
+            debug.setLogger(debug.Debug(*opt[1].split(',')))
+
+        except error.PySmiError:
+            sys.stderr.write('ERROR: %s\r\n%s\r\n' % (sys.exc_info()[1], helpMessage))
+            sys.exit(EX_USAGE)
 
     if opt[0] == '--mib-source':
         mibSources.append(opt[1])
@@ -209,6 +214,14 @@ if inputMibs:
 
 if not inputMibs:
     sys.stderr.write('ERROR: MIB modules names not specified\r\n%s\r\n' % helpMessage)
+    sys.exit(EX_USAGE)
+
+# a URL no reader can be made for is a mistake on the command line
+try:
+    getReadersFromUrls(*(mibSources + [x[0] for x in mibBorrowers]))
+
+except error.PySmiError:
+    sys.stderr.write('ERROR: %s\r\n%s\r\n' % (sys.exc_info()[1], helpMessage))
     sys.exit(EX_USAGE)
 
 if not dstFormat:
